@@ -7,7 +7,12 @@
 #include "vp.h"
 #include <config.h>
 #include "pixman-sse2.c"
+#ifndef ROWS
 #define ROWS 2
+#endif
+#ifndef SSTRIDE
+#define SSTRIDE STRIDEW
+#endif
 #ifndef STRIDEW
 #define STRIDEW 12
 #endif
@@ -24,14 +29,26 @@ void harness (void)
     pixman_implementation_t *fast2 = _pixman_implementation_create_fast_path (gen2); VP_ASSUME (fast2 != NULL);
     pixman_implementation_t *sse = _pixman_implementation_create_sse2 (fast2); VP_ASSUME (sse != NULL);
 #if BLT
+#ifdef PUBLIC
+    /* C19: the PUBLIC entry point pixman_blt (pixman.c) over a chain that has a blt routine (the SSE2 level; the C levels have none).
+     * -DINPLACE: source and destination are the SAME buffer with different strides (in-place field extraction, well defined top to bottom) */
+    global_implementation = sse;
+#ifdef INPLACE
+    for (i = 0; i < ROWS * STRIDEW; i++) src[i] = a0[i];
+    pixman_bool_t ok = pixman_blt (a, a, SSTRIDE, STRIDEW, BPPV, BPPV, SX, SY, X, Y, WD, HT);
+#else
+    pixman_bool_t ok = pixman_blt (src, a, SSTRIDE, STRIDEW, BPPV, BPPV, SX, SY, X, Y, WD, HT);
+#endif
+#else
     pixman_bool_t ok = _pixman_implementation_blt (sse, src, a, STRIDEW, STRIDEW, BPPV, BPPV, SX, SY, X, Y, WD, HT);
+#endif
     VP_ASSERT (ok == (BPPV == 16 || BPPV == 32), "blt supported exactly for 16 and 32 bpp in this chain");
     { int r, bit; VP_SYM (r); VP_SYM (bit); VP_ASSUME (r >= 0 && r < ROWS && bit >= 0 && bit < STRIDEW * 32);
       int px = bit / BPPV, inside = ok && px >= X && px < X + WD && r >= Y && r < Y + HT;
       uint32_t got = (a[r * STRIDEW + bit / 32] >> (bit % 32)) & 1, old = (a0[r * STRIDEW + bit / 32] >> (bit % 32)) & 1;
       if (inside)
       {   int sbit = bit + (SX - X) * BPPV, sr = r + (SY - Y);
-	  VP_ASSERT (got == ((src[sr * STRIDEW + sbit / 32] >> (sbit % 32)) & 1), "blt copies exactly the addressed rectangle"); }
+	  VP_ASSERT (got == ((src[sr * SSTRIDE + sbit / 32] >> (sbit % 32)) & 1), "blt copies exactly the addressed rectangle"); }
       else VP_ASSERT (got == old, "blt changes nothing outside the rectangle (or nothing at all on failure)"); }
 #else
     pixman_bool_t ok1 = _pixman_implementation_fill (sse, a, STRIDEW, BPPV, X, Y, WD, HT, filler);
